@@ -91,6 +91,8 @@ impl TryFromSpecImpl<UBig> for u64 {
     }
 }
 // base/src/sign.rs `impl Mul<i32> for Sign`, `impl Mul<i64> for Sign`: `match self { Positive => rhs, Negative => -rhs }`
+pub open spec fn sgn_i32(s: Sign, x: i32) -> i32 { if s == Sign::Negative { (-x) as i32 } else { x } }
+pub open spec fn sgn_i64(s: Sign, x: i64) -> i64 { if s == Sign::Negative { (-x) as i64 } else { x } }
 impl Mul<i32> for Sign { type Output = i32;
     #[verifier::external_body]
     fn mul(self, rhs: i32) -> i32 { unimplemented!() }
@@ -98,7 +100,7 @@ impl Mul<i32> for Sign { type Output = i32;
 impl MulSpecImpl<i32> for Sign {
     open spec fn obeys_mul_spec() -> bool { true }
     open spec fn mul_req(self, rhs: i32) -> bool { rhs > i32::MIN }
-    open spec fn mul_spec(self, rhs: i32) -> i32 { if self == Sign::Negative { (-rhs) as i32 } else { rhs } }
+    open spec fn mul_spec(self, rhs: i32) -> i32 { sgn_i32(self, rhs) }
 }
 impl Mul<i64> for Sign { type Output = i64;
     #[verifier::external_body]
@@ -107,21 +109,13 @@ impl Mul<i64> for Sign { type Output = i64;
 impl MulSpecImpl<i64> for Sign {
     open spec fn obeys_mul_spec() -> bool { true }
     open spec fn mul_req(self, rhs: i64) -> bool { rhs > i64::MIN }
-    open spec fn mul_spec(self, rhs: i64) -> i64 { if self == Sign::Negative { (-rhs) as i64 } else { rhs } }
+    open spec fn mul_spec(self, rhs: i64) -> i64 { sgn_i64(self, rhs) }
 }
 
 // ---- specification of the KNOWN-FINDING regions of Repr::to_f32 / to_f64 (see the annotated copies)
 pub open spec fn rq_shift(num: int, den: int, p: nat) -> int { blen(num) - blen(den) - (p + 1) }
 pub open spec fn rq_n(num: int, den: int, p: nat) -> int { rs_num(absi(num), rq_shift(num, den, p)) }
 pub open spec fn rq_d(num: int, den: int, p: nat) -> int { rs_den(den, rq_shift(num, den, p)) }
-/// "r is an INEXACT RNE rounding of (-1)^neg * a * 2^e"
-pub open spec fn enc_inexact_w(f: Fmt, neg: bool, a: int, e: int, r: Fields, ep: bool) -> bool {
-    rne_ok(f, neg, sc_num(a, e), sc_den(e), r, false, ep)
-}
-/// "encode(a, e) loses something": a * 2^e is not representable
-pub open spec fn enc_inexact(f: Fmt, neg: bool, a: int, e: int) -> bool {
-    exists|r: Fields, ep: bool| #[trigger] enc_inexact_w(f, neg, a, e, r, ep)
-}
 /// the double-rounding region: the integer quotient had to be rounded AND `encode` has to round it again
 pub open spec fn ratio_double_rounding(f: Fmt, num: int, den: int) -> bool {
     let n = rq_n(num, den, f.p);
@@ -138,4 +132,32 @@ impl<'a> ShrSpecImpl<usize> for &'a UBig {
     open spec fn obeys_shr_spec() -> bool { true }
     open spec fn shr_req(self, rhs: usize) -> bool { true }
     open spec fn shr_spec(self, rhs: usize) -> UBig { ubig_of(self.v() / pow2(rhs as nat) as int) }
+}
+
+// ---- the closure `|man| f32::encode(sign * man as i32, shift as i16)` of Repr::to_f32 / to_f64: its postcondition is
+// stated as the callee's own postcondition on the actual arguments (nothing to prove inside the closure); the lemmas
+// below turn it into the readable form "o is the rounding of (-1)^[sign] * man * 2^shift"
+pub open spec fn enc_args32(o: Approximation<f32, Sign>, sign: Sign, man: u32, shift: isize) -> bool {
+    let m = sgn_i32(sign, man as i32);
+    ap32_ok(o, m < 0, sc_num(absi(m as int), (shift as i16) as int), sc_den((shift as i16) as int))
+}
+pub open spec fn enc_args64(o: Approximation<f64, Sign>, sign: Sign, man: u64, shift: isize) -> bool {
+    let m = sgn_i64(sign, man as i64);
+    ap64_ok(o, m < 0, sc_num(absi(m as int), (shift as i16) as int), sc_den((shift as i16) as int))
+}
+pub proof fn lemma_enc_args32(o: Approximation<f32, Sign>, sign: Sign, man: u32, shift: isize)
+    requires enc_args32(o, sign, man, shift), man <= 0x2000000, -0x8000 <= shift < 0x8000
+    ensures ap32_ok(o, sign == Sign::Negative, sc_num(man as int, shift as int), sc_den(shift as int))
+{
+    if man == 0 {
+        if shift >= 0 { assert(0 * pow2(shift as nat) == 0) by (nonlinear_arith); }
+    }
+}
+pub proof fn lemma_enc_args64(o: Approximation<f64, Sign>, sign: Sign, man: u64, shift: isize)
+    requires enc_args64(o, sign, man, shift), man <= 0x40000000000000, -0x8000 <= shift < 0x8000
+    ensures ap64_ok(o, sign == Sign::Negative, sc_num(man as int, shift as int), sc_den(shift as int))
+{
+    if man == 0 {
+        if shift >= 0 { assert(0 * pow2(shift as nat) == 0) by (nonlinear_arith); }
+    }
 }
